@@ -255,12 +255,18 @@ class Facts:
         self.config = config
         self.crates = {}
         _, floors = CONFIGS[config]
+        docs = {}
         for c, floor in floors.items():
             p = os.path.join(self.dir, c + ".json")
             if not os.path.exists(p):
                 raise RuntimeError("fact file missing for crate %s (config %s)" % (c, config))
             with open(p) as f:
-                self.crates[c] = Crate(json.load(f))
+                docs[c] = json.load(f)
+        # functions that were only moved or renamed since the inventory get their inventory path back (tlint/baseline.py)
+        from . import baseline as _baseline
+        self.moved = _baseline.canonicalise(docs)
+        for c, floor in floors.items():
+            self.crates[c] = Crate(docs[c])
             n = self.crates[c].mir_count()
             if n < floor:
                 raise RuntimeError("crate %s exported only %d MIR bodies (< floor %d)" % (c, n, floor))
